@@ -144,6 +144,69 @@ theorem C20_idempotent (value new v' : Bytes) (hn : (32 : UInt8) ∉ new) (hq1 :
   rw [hold]
   simp
 
+theorem oldEch_rewrite (value new v' : Bytes) (hn : (32 : UInt8) ∉ new) (hq1 : new.head? ≠ some 34)
+    (hq2 : new.getLast? ≠ some 34) (hne : new ≠ []) (h : rewrite value new = some v') :
+    oldEch (splitSp v') = new := by
+  have hone := C20_one_ech value new v' hn h
+  unfold oldEch
+  rw [hone]
+  simp only [List.getLast?_singleton]
+  have : (echToken new).drop 4 = [34] ++ new ++ [34] := by simp [echToken, echPrefix]
+  rw [this, trimQuotes_quoted new hq1 hq2 hne]
+
+theorem publishSeq_snoc (value : Bytes) (ns : List Bytes) (n : Bytes) :
+    publishSeq value (ns ++ [n]) = publishOne (publishSeq value ns) n := by
+  induction ns generalizing value with
+  | nil => rfl
+  | cons a as ih => simp only [List.cons_append, publishSeq]; exact ih _
+
+theorem publishOne_others (value new : Bytes) (hn : (32 : UInt8) ∉ new) :
+    (splitSp (publishOne value new)).filter (fun t => ¬ isEch t) =
+      (splitSp value).filter (fun t => ¬ isEch t) := by
+  unfold publishOne
+  split
+  · rename_i v hv
+    rw [C20_rewrite value new v hn hv, List.filter_append, List.filter_filter]
+    have h2 : isEch (echToken new) = true := by simp [isEch, echToken, echPrefix]
+    simp [h2]
+  · rfl
+
+/-- History, frame part: after any sequence of publishes with changing config lists (some of them
+    no-ops because the value was current), the stored value still holds every other service
+    parameter of the original value, in the original order. -/
+theorem C20_history_others (value : Bytes) (news : List Bytes) (hn : ∀ n ∈ news, (32 : UInt8) ∉ n) :
+    (splitSp (publishSeq value news)).filter (fun t => ¬ isEch t) =
+      (splitSp value).filter (fun t => ¬ isEch t) := by
+  induction news generalizing value with
+  | nil => rfl
+  | cons n ns ih =>
+    simp only [publishSeq]
+    rw [ih _ (fun x hx => hn x (by simp [hx])), publishOne_others value n (hn n (by simp))]
+
+/-- History, effect part: whatever was published before, after the last publish the record's ech
+    value is the last config list published (standard base64: non-empty, no space, no quote). -/
+theorem C20_history_last (value : Bytes) (ns : List Bytes) (n : Bytes) (hn : (32 : UInt8) ∉ n)
+    (hq1 : n.head? ≠ some 34) (hq2 : n.getLast? ≠ some 34) (hne : n ≠ []) :
+    oldEch (splitSp (publishSeq value (ns ++ [n]))) = n := by
+  rw [publishSeq_snoc]
+  unfold publishOne
+  split
+  · rename_i v hv
+    exact oldEch_rewrite _ n v hn hq1 hq2 hne hv
+  · rename_i hv
+    unfold rewrite at hv
+    split at hv
+    · rename_i he; exact he.symm
+    · simp at hv
+
+/-- … and a further publish of that same list writes nothing. -/
+theorem C20_history_then_current (value : Bytes) (ns : List Bytes) (n : Bytes) (hn : (32 : UInt8) ∉ n)
+    (hq1 : n.head? ≠ some 34) (hq2 : n.getLast? ≠ some 34) (hne : n ≠ []) :
+    rewrite (publishSeq value (ns ++ [n])) n = none := by
+  unfold rewrite
+  rw [C20_history_last value ns n hn hq1 hq2 hne]
+  simp
+
 /-- Exactly one result per requested record, in request order. -/
 theorem C20_results (f : Faults) (new : Bytes) (ts : List Tgt) (s : PState) (c : CallSt) :
     (publishLoop f new ts s c).1.length = ts.length := by
